@@ -34,6 +34,10 @@ def run(ck):
         g["calls"] = [pcall(a, "list") for a in PACKERS]
         g["watchdog"] = 20
         groups.append(g)
+    for g in gen.gscale_families(ck.rng, 100 if q else 3000, cover=False):      # magnitudes around 2^31 (values <= 21 times a common factor of about 1e8)
+        g = dict(g); g["orc"] = 0; g.pop("fmts")
+        g["calls"] = [pcall(a, "list") for a in PACKERS]
+        groups.append(g); ck.cat("common_factor_1e8")
     ck.rule = ("TLC enumerates every arrival sequence of <=5 values in 0..C for C in {4,6} (and dyadic eighths for the fit heuristics); ff, ffd, bf, bfd and "
                "bin-completion executed on each (plain list input: presentation formats belong to C07) with output types PartitionAndSumsTuple, BinCount and Sums; plus seeded families of 6-14 items "
                "(uniform, small, triplet, half-size, exact fills). non-trivial = distinct (sequence, C) with >=2 items")
